@@ -15,6 +15,8 @@ struct Frame {
   const CallBase *callsite = nullptr;
   std::vector<int> allocas;
   std::map<const BasicBlock *, int> visits;
+  std::map<const BasicBlock *, int> forks;          // how often the terminator of this block was undecided
+  std::map<const BasicBlock *, std::pair<std::vector<Val>, uint64_t>> snaps;   // header -> (phi values, memory hash) at last widened arrival
 };
 
 struct Alarm { std::string kind, fn, msg; unsigned line = 0; };
@@ -36,6 +38,10 @@ struct Config {
   int64_t maxPaths = 200000;   // per cell
   int64_t loopFuel = 70000;
   int concrMax = 128;
+  int widenAfter = 12;
+  int ptrWidenAfter = 600;     // visits of a header before pointer phis are widened
+  int frameForkWiden = 0;      // >0: widen at loop headers once a frame has forked more than this often
+  bool dedupe = false;         // cross-path state deduplication at merge blocks         // undecided iterations of one branch before widening kicks in
   std::string reportRegion;
   std::vector<FieldSpec> fields;   // field map of the data object (fieldmap id 0)
 };
@@ -52,6 +58,8 @@ struct State {
   int64_t steps = 0;
   bool aborted = false;
   std::string abortMsg;
+  int fresh = 0;               // remaining dedupe checks after the last fork
+  bool dedup = false;          // path ended because an identical state was already explored
   bool wroteReport = false;   // any write into the report region since entry (besides first token)
 };
 
